@@ -983,6 +983,24 @@ def scenario_cauchy(rng, props, fails, stats):
     x = start_in(rng, lb, ub)
     g = rng.normal(size=n) * 10 ** rng.uniform(-1, 1)
     g[rng.random(n) < 0.15] = 0.0
+    # exact ties between breakpoints (symmetric problems produce them): two or three variables reach their bound
+    # at the same t = 2^-k (dyadic data, so that the quotients are exact)
+    tie = bool(n >= 2 and rng.random() < 0.25)
+    if tie:
+        k = int(rng.integers(2, min(n, 3) + 1))
+        idx = rng.choice(n, size=k, replace=False)
+        T = 0.5 ** int(rng.integers(1, 4))
+        for i in idx:
+            gi = float(rng.choice([1.0, 2.0, 0.5, -1.0, -2.0, 4.0]))
+            g[i] = gi
+            if gi > 0:
+                lb[i] = float(rng.integers(-2, 3))
+                x[i] = lb[i] + T * gi
+                ub[i] = max(ub[i], x[i] + 1.0)
+            else:
+                ub[i] = float(rng.integers(-2, 3))
+                x[i] = ub[i] + T * gi
+                lb[i] = min(lb[i], x[i] - 1.0)
     if pg_norm(x, g, lb, ub) == 0:
         return {"n": n}
     B = _dense_B(mats, n)
@@ -998,7 +1016,27 @@ def scenario_cauchy(rng, props, fails, stats):
         t = np.where(g < 0, (x - ub) / g, np.where(g > 0, (x - lb) / g, np.inf))
     bps = sorted(set(v for v in t if v > 0 and np.isfinite(v)))
     if len(set(np.round(np.array(bps), 12))) != len(bps):
-        return {"n": n}                           # ties: only feasibility / decrease are claimed
+        return {"n": n}                           # near-ties: only feasibility / decrease are claimed
+    if tie:
+        # exact ties: whatever the order in which tied variables are processed, the result is a point of the
+        # projected path: x_cp == P(x - t g) for some t >= 0, and every variable whose breakpoint is <= t is pinned
+        stats["nontrivial"] += 1
+        moving = (g != 0) & (t > 0) & (xcp != lb) & (xcp != ub)
+        if np.any(moving):
+            tt = float(np.median(((x - xcp) / np.where(g != 0, g, 1.0))[moving]))
+        else:
+            tt = float(np.max(t[np.isfinite(t)], initial=0.0))
+        onpath = np.clip(x - tt * g, lb, ub)
+        if np.max(np.abs(xcp - onpath)) > 1e-7 * max(1.0, float(np.max(np.abs(onpath)))):
+            fails.append(("C08", f"tied breakpoints: the Cauchy point is not on the projected path (off by "
+                                 f"{np.max(np.abs(xcp - onpath)):.2e} at t = {tt:.3g})"))
+        reached = (g != 0) & (t <= tt * (1 - 1e-9))
+        if np.any(reached & (xcp != lb) & (xcp != ub)):
+            fails.append(("C08", "tied breakpoints: a variable that reached its bound is not exactly on it"))
+        mval = g @ (xcp - x) + 0.5 * (xcp - x) @ B @ (xcp - x)
+        if mval > 1e-10 * max(1.0, abs(g @ g)):
+            fails.append(("C08", f"model value at the Cauchy point is larger than at x ({mval:.2e})"))
+        return {"n": n, "m": m, "tie": True}
     stats["nontrivial"] += 1
     prev, tstar = 0.0, None
     for b in bps + [np.inf]:
